@@ -326,6 +326,10 @@ func C13Registry(tier string) []UniverseDef {
 		{Name: "LONG6", Free: []string{P(12) + "x", P(12) + "y", P(11) + "z", P(5) + "q", P(12) + "x" + P(11) + "1", "hello"}, Probes: []string{P(12), P(13), "hello world"}},
 		{Name: "NUL5", Free: []string{"a\x00b", "a\x00c", "b", "\x00\x01", "a\x01"}, Probes: []string{"a\x00"}},
 	}
+	for _, ls := range LengthSpecs() {
+		ls.Free = ls.Free[:5]
+		specs = append(specs, ls)
+	}
 	if tier == "thorough" {
 		specs = append(specs, AlphaSpec{Name: "SHORT8", Free: []string{"", "a", "b", "ab", "abc", "abd", "b\xff", "\x80"}, Probes: []string{"c"}},
 			FanUniverse(FanSpec{Name: "FAN16@15", Hold: 15, Present: 3, Absent: 3}), FanUniverse(FanSpec{Name: "FAN48@14", Hold: 14, Extra: 3, Present: 2, Absent: 2, Path: P(12)}))
